@@ -1,5 +1,7 @@
 import WmModel.Props.C17
 import WmModel.Props.C17Tie
+import WmModel.Props.C17Router
+import WmModel.Props.C02Tie
 #print axioms Wm.Relay.atoi_itoa
 #print axioms Wm.Relay.atoi_range
 #print axioms Wm.Relay.requeuer_relays
@@ -33,3 +35,8 @@ import WmModel.Props.C17Tie
 #print axioms Wm.GoRelay.extracted_requeuer_eq_model
 #print axioms Wm.GoRelay.extracted_unwrap_eq_model
 #print axioms Wm.GoRelay.extracted_forward_eq_model
+#print axioms Wm.GoRelay.relay_settle_rule_eq_handle
+#print axioms Wm.GoRelay.rqRun_settle_eq_handle
+#print axioms Wm.GoRelay.fwRun_settle_eq_handle
+#print axioms Wm.GoHandle.handle_skeleton_eq_model
+#print axioms Wm.GoHandle.publish_skeleton_eq_model
